@@ -88,7 +88,15 @@ func mulMono(a, b string) string {
 	}
 	vs := append(strings.Split(a, "*"), strings.Split(b, "*")...)
 	sort.Strings(vs)
-	return strings.Join(vs, "*")
+	// boolean variables (names starting with "B") are idempotent
+	out := vs[:0]
+	for i, v := range vs {
+		if i > 0 && v == vs[i-1] && strings.HasPrefix(v, "B") {
+			continue
+		}
+		out = append(out, v)
+	}
+	return strings.Join(out, "*")
 }
 
 // MaxPolyTerms bounds polynomial size; larger products drop the polynomial.
@@ -206,12 +214,29 @@ type splitInfo struct {
 	j int
 }
 
-// carryVar returns the variable standing for floor(p / 2^k).
-func (it *Interp) carryVar(p *Poly, k int) *Poly {
+// sliceInfo says that a polynomial is the bit slice  floor(q / 2^lo) mod 2^(hi-lo)  of q (hi < 0: no upper cut).
+// All splitting of values goes through slice(), which keeps one normal form per (q, lo, hi): slices of slices compose,
+// common powers of two are divided out, and the carry variable of (q, k) is shared by every spelling of that quantity.
+type sliceInfo struct {
+	q      *Poly
+	lo, hi int
+	res    *Poly
+}
+
+func (it *Interp) initCarries() {
 	if it.carries == nil {
 		it.carries = map[string]string{}
 		it.highOf = map[string]splitInfo{}
 		it.lowOf = map[string]splitInfo{}
+		it.slices = map[string]sliceInfo{}
+	}
+}
+
+// carryVar returns the variable standing for floor(p / 2^k), p already in normal form (not itself a slice).
+func (it *Interp) carryVar(p *Poly, k int) *Poly {
+	it.initCarries()
+	if k == 0 {
+		return p
 	}
 	key := p.Key() + ">>" + strconv.Itoa(k)
 	name, ok := it.carries[key]
@@ -235,6 +260,124 @@ func divisible(p *Poly, k int) (*Poly, bool) {
 	return r, true
 }
 
+func commonTwos(p *Poly, max int) int {
+	j := max
+	for _, c := range p.T {
+		if tz := int(c.TrailingZeroBits()); tz < j {
+			j = tz
+		}
+	}
+	if len(p.T) == 0 {
+		return 0
+	}
+	return j
+}
+
+// slice returns the polynomial of floor(q / 2^lo) mod 2^(hi-lo) (hi < 0: floor(q / 2^lo)).
+func (it *Interp) bitSlice(q *Poly, lo, hi int) *Poly {
+	it.initCarries()
+	it.sliceDepth++
+	defer func() { it.sliceDepth-- }()
+	if q == nil {
+		return nil
+	}
+	if hi >= 0 && hi <= lo {
+		return PolyConst(big0)
+	}
+	if len(q.T) == 0 {
+		return q
+	}
+	// a slice of a slice
+	if si, ok := it.slices[q.Key()]; ok {
+		nlo := si.lo + lo
+		nhi := si.hi
+		if hi >= 0 && (nhi < 0 || si.lo+hi < nhi) {
+			nhi = si.lo + hi
+		}
+		return it.bitSlice(si.q, nlo, nhi)
+	}
+	// divide out common powers of two
+	lim := lo
+	if hi >= 0 {
+		lim = hi
+	}
+	if lim > 0 {
+		if j := commonTwos(q, lim); j > 0 {
+			qq, _ := divisible(q, j)
+			switch {
+			case lo >= j:
+				nhi := hi
+				if hi >= 0 {
+					nhi = hi - j
+				}
+				return it.bitSlice(qq, lo-j, nhi)
+			case lo == 0:
+				// hi > j here (hi <= j would make j == hi and the slice zero)
+				if hi >= 0 && hi <= j {
+					return PolyConst(big0)
+				}
+				nhi := hi
+				if hi >= 0 {
+					nhi = hi - j
+				}
+				return PolyScale(it.bitSlice(qq, 0, nhi), pow2(j))
+			}
+		}
+	}
+	// q = A + 2^w·B with A a known bit slice of width w (a packed bit-field): the low field drops out of higher slices
+	// and passes through lower cuts unchanged
+	if len(q.T) > 1 && len(it.slices) < 6000 && it.sliceDepth < 24 {
+		var best *sliceInfo
+		bestKey := ""
+		for key, si := range it.slices {
+			if si.hi < 0 || si.res == nil || si.q.Key() == q.Key() {
+				continue
+			}
+			w := si.hi - si.lo
+			if w <= 0 || w >= lim {
+				continue
+			}
+			d := PolyAdd(q, si.res, -1)
+			if len(d.T) == 0 || commonTwos(d, w) < w {
+				continue
+			}
+			if best == nil || w > best.hi-best.lo || (w == best.hi-best.lo && key < bestKey) {
+				c := si
+				best, bestKey = &c, key
+			}
+		}
+		if best != nil {
+			w := best.hi - best.lo
+			bq, _ := divisible(PolyAdd(q, best.res, -1), w)
+			switch {
+			case lo >= w:
+				nhi := hi
+				if hi >= 0 {
+					nhi = hi - w
+				}
+				return it.bitSlice(bq, lo-w, nhi)
+			case lo == 0 && hi > w:
+				return PolyAdd(best.res, PolyScale(it.bitSlice(bq, 0, hi-w), pow2(w)), 1)
+			}
+		}
+	}
+	var res *Poly
+	if lo == 0 {
+		res = q
+	} else {
+		res = it.carryVar(q, lo)
+	}
+	if hi >= 0 {
+		res = PolyAdd(res, PolyScale(it.carryVar(q, hi), pow2(hi-lo)), -1)
+	}
+	if lo != 0 || hi >= 0 {
+		if _, seen := it.slices[res.Key()]; !seen {
+			it.slices[res.Key()] = sliceInfo{q, lo, hi, res}
+		}
+	}
+	return res
+}
+
 // polyLow returns x mod 2^k for a value x with polynomial p and range [0, hi].
 func (it *Interp) polyLow(p *Poly, hi *big.Int, k int) *Poly {
 	if p == nil {
@@ -243,18 +386,7 @@ func (it *Interp) polyLow(p *Poly, hi *big.Int, k int) *Poly {
 	if hi.BitLen() <= k {
 		return p
 	}
-	if _, ok := divisible(p, k); ok {
-		return PolyConst(big0)
-	}
-	// (q mod 2^j) mod 2^k = q mod 2^k for k <= j
-	if si, ok := it.lowOf[p.Key()]; ok && k <= si.j {
-		p = si.q
-	}
-	low := PolyAdd(p, PolyScale(it.carryVar(p, k), pow2(k)), -1)
-	if _, seen := it.lowOf[low.Key()]; !seen {
-		it.lowOf[low.Key()] = splitInfo{p, k}
-	}
-	return low
+	return it.bitSlice(p, 0, k)
 }
 
 // polyHigh returns floor(x / 2^k).
@@ -265,25 +397,7 @@ func (it *Interp) polyHigh(p *Poly, hi *big.Int, k int) *Poly {
 	if hi.BitLen() <= k {
 		return PolyConst(big0)
 	}
-	if k == 0 {
-		return p
-	}
-	if q, ok := divisible(p, k); ok {
-		return q
-	}
-	// floor(floor(q/2^j) / 2^k) = floor(q / 2^(j+k))
-	if len(p.T) == 1 {
-		for m, c := range p.T {
-			if si, ok := it.highOf[m]; ok && c.Cmp(big1) == 0 {
-				return it.carryVar(si.q, si.j+k)
-			}
-		}
-	}
-	// floor((q mod 2^j) / 2^k) = floor(q/2^k) - 2^(j-k)·floor(q/2^j) for k < j
-	if si, ok := it.lowOf[p.Key()]; ok && k < si.j {
-		return PolyAdd(it.carryVar(si.q, k), PolyScale(it.carryVar(si.q, si.j), pow2(si.j-k)), -1)
-	}
-	return it.carryVar(p, k)
+	return it.bitSlice(p, k, -1)
 }
 
 // contiguousMask decomposes m = 2^hi - 2^lo.
@@ -300,67 +414,154 @@ func contiguousMask(m *big.Int) (lo, hi int, ok bool) {
 	return lo, lo + t.BitLen() - 1, true
 }
 
-// polyBin computes the polynomial of r = a op b (unsigned, non-wrapping cases only).
-func (it *Interp) polyBin(op string, a, b, r Val, k int) *Poly {
-	if !it.H.Polys || a.Signed || a.Lo == nil || b.Lo == nil {
+// boolVar returns the 0/1 variable standing for the truth value keyed by key (names start with "B": idempotent in products).
+func (it *Interp) boolVar(key string) *Poly {
+	if it.bools == nil {
+		it.bools = map[string]string{}
+	}
+	name, ok := it.bools[key]
+	if !ok {
+		name = "B" + strconv.Itoa(len(it.bools))
+		it.bools[key] = name
+	}
+	return PolyVar(name)
+}
+
+// polyLowMod is x mod 2^k for a value known only modulo 2^W (k <= W): no interval shortcut is allowed.
+func (it *Interp) polyLowMod(p *Poly, k int) *Poly {
+	if p == nil {
 		return nil
 	}
+	return it.bitSlice(p, 0, k)
+}
+
+// polyBin computes the polynomial of r = a op b. mod reports that the polynomial equals the value only modulo 2^W
+// (the machine operation may have wrapped); such values may be added, subtracted, shifted left and masked, nothing else.
+func (it *Interp) polyBin(op string, a, b, r Val, k int) (res *Poly, mod bool) {
+	if !it.H.Polys || a.Signed || a.Lo == nil || b.Lo == nil {
+		return nil, false
+	}
 	pa, pb := it.polyOf(a), it.polyOf(b)
+	am, bm := a.PolyMod && a.Poly != nil, b.PolyMod && b.Poly != nil
 	max := maxOf(a.W, false)
 	switch op {
 	case "add":
-		if pa == nil || pb == nil || new(big.Int).Add(a.Hi, b.Hi).Cmp(max) > 0 {
-			return nil
+		if pa == nil || pb == nil {
+			return nil, false
 		}
-		return PolyAdd(pa, pb, 1)
+		sum := PolyAdd(pa, pb, 1)
+		if !am && !bm && new(big.Int).Add(a.Hi, b.Hi).Cmp(max) <= 0 {
+			return sum, false
+		}
+		return sum, true
 	case "sub":
-		if pa == nil || pb == nil || a.Lo.Cmp(b.Hi) < 0 {
-			return nil
+		if pa == nil || pb == nil {
+			return nil, false
 		}
-		return PolyAdd(pa, pb, -1)
+		d := PolyAdd(pa, pb, -1)
+		if !am && !bm && a.Lo.Cmp(b.Hi) >= 0 {
+			return d, false
+		}
+		return d, true
 	case "mul":
-		if pa == nil || pb == nil || new(big.Int).Mul(a.Hi, b.Hi).Cmp(max) > 0 {
-			return nil
+		if pa == nil || pb == nil || am || bm || new(big.Int).Mul(a.Hi, b.Hi).Cmp(max) > 0 {
+			return nil, false
 		}
-		return PolyMul(pa, pb)
+		return PolyMul(pa, pb), false
 	case "shl":
-		if pa == nil || new(big.Int).Lsh(a.Hi, uint(k)).Cmp(max) > 0 {
-			return nil
+		if pa == nil {
+			return nil, false
 		}
-		return PolyScale(pa, pow2(k))
+		sc := PolyScale(pa, pow2(k))
+		if !am && new(big.Int).Lsh(a.Hi, uint(k)).Cmp(max) <= 0 {
+			return sc, false
+		}
+		return sc, true
 	case "shr":
-		return it.polyHigh(pa, a.Hi, k)
+		if am {
+			return nil, false
+		}
+		return it.polyHigh(pa, a.Hi, k), false
 	case "low":
-		return it.polyLow(pa, a.Hi, k)
+		if am {
+			return it.polyLowMod(pa, k), false
+		}
+		return it.polyLow(pa, a.Hi, k), false
 	case "and":
-		x, px, m := a, pa, b
+		x, px, m, xm := a, pa, b, am
 		if a.IsConst() && !b.IsConst() {
-			x, px, m = b, pb, a
+			x, px, m, xm = b, pb, a, bm
 		}
 		if !m.IsConst() || px == nil {
-			return nil
+			return nil, false
 		}
 		lo, hi, ok := contiguousMask(m.Lo)
 		if !ok {
 			if m.Lo.Sign() == 0 {
-				return PolyConst(big0)
+				return PolyConst(big0), false
 			}
-			return nil
+			return nil, false
+		}
+		low := func(k int) *Poly {
+			if xm {
+				return it.polyLowMod(px, k)
+			}
+			return it.polyLow(px, x.Hi, k)
+		}
+		if hi > x.W {
+			hi = x.W
 		}
 		// (x mod 2^hi) - (x mod 2^lo)
 		if lo == 0 {
-			return it.polyLow(px, x.Hi, hi)
+			return low(hi), false
 		}
-		return PolyAdd(it.polyLow(px, x.Hi, hi), it.polyLow(px, x.Hi, lo), -1)
+		return PolyAdd(low(hi), low(lo), -1), false
 	case "or":
 		if pa == nil || pb == nil {
-			return nil
+			return nil, false
 		}
 		if new(big.Int).And(a.mayBits(), b.mayBits()).Sign() != 0 {
-			return nil
+			return nil, false
 		}
-		return PolyAdd(pa, pb, 1)
+		// bit-disjoint machine values add without carry; a modular operand makes the sum modular
+		return PolyAdd(pa, pb, 1), am || bm
 	}
-	return nil
+	return nil, false
 }
 
+// LowBits returns the polynomial of v mod 2^k (for rules that need a sub-field of a stored value).
+func (it *Interp) LowBits(v Val, k int) *Poly {
+	p := it.polyOf(v)
+	if p == nil {
+		return nil
+	}
+	if v.PolyMod {
+		return it.polyLowMod(p, k)
+	}
+	return it.polyLow(p, v.Hi, k)
+}
+
+// Describe explains the carry / boolean variables that occur in p (for diagnostics).
+func (it *Interp) Describe(p *Poly) string {
+	if p == nil {
+		return ""
+	}
+	seen := map[string]bool{}
+	var out []string
+	for m := range p.T {
+		for _, v := range strings.Split(m, "*") {
+			if seen[v] || v == "" {
+				continue
+			}
+			seen[v] = true
+			if si, ok := it.highOf[v]; ok {
+				out = append(out, v+" = floor(("+si.q.String()+") / 2^"+strconv.Itoa(si.j)+")")
+			}
+		}
+	}
+	sort.Strings(out)
+	if len(out) > 6 {
+		out = out[:6]
+	}
+	return strings.Join(out, "; ")
+}
